@@ -37,9 +37,22 @@ class EP:
     s.sig, s.suffix, s.T, s.lo, s.hi, s.chain = sig, suffix, T, lo, hi, chain    # chain: list of ('F'|'S', lo, hi) absolute
   @property
   def full(s): return s.sig.root + s.suffix
-  def local(s, host):
+  def local(s, host, nest=None):
+    """text of the end point as seen from component `host`.  nest=(o, p): write a slice end point as a slice OF A SLICE,
+    x[o:p][a-o:b-o]; pymtl3 must resolve that to the same object as the direct slice x[a:b] (identity = absolute bits)"""
     rel = s.sig.inst[len(host):]
-    return 's' + ''.join('.' + x for x in rel) + '.' + s.sig.name + s.suffix
+    suffix = s.suffix
+    if nest is not None and s.chain and s.chain[-1][0] == 'S':
+      plo = s.chain[-2][1] if len(s.chain) > 1 else 0
+      a, b = s.lo - plo, s.hi - plo
+      o, p_ = nest
+      suffix = suffix[:suffix.rindex('[')] + f'[{o}:{p_}][{a - o}:{b - o}]'
+    return 's' + ''.join('.' + x for x in rel) + '.' + s.sig.name + suffix
+  def slice_rel(s):
+    """(leaf key, a, b, W): slice indices relative to the sliced Bits object, and its width; None if not a slice"""
+    if not (s.chain and s.chain[-1][0] == 'S'): return None
+    plo, phi = (s.chain[-2][1], s.chain[-2][2]) if len(s.chain) > 1 else (0, twidth(s.sig.T))
+    return (s.sig.root, tuple(s.chain[:-1])), s.lo - plo, s.hi - plo, phi - plo
   @property
   def mask(s): return ((1 << s.hi) - 1) ^ ((1 << s.lo) - 1)
   def __repr__(s): return s.full
@@ -125,10 +138,12 @@ class Design:
       for k in order:
         t = st[k]
         if t[0] == 'conn':
-          swap, syn = (flips or {}).get((i.path, k), (False, 0))
+          fl = (flips or {}).get((i.path, k), (False, 0))
+          swap, syn = fl[0], fl[1]
+          na, nb = (fl[2], fl[3]) if len(fl) > 2 else (None, None)
           a, b = t[1], t[2]
-          ta = a.text(random.Random(k)) if isinstance(a, ConstEP) else a.local(i.path)
-          tb = b.text(random.Random(k)) if isinstance(b, ConstEP) else b.local(i.path)
+          ta = a.text(random.Random(k)) if isinstance(a, ConstEP) else a.local(i.path, na)
+          tb = b.text(random.Random(k)) if isinstance(b, ConstEP) else b.local(i.path, nb)
           if swap: ta, tb = tb, ta
           lhs_ok = lambda e, txt: not isinstance(e, ConstEP) and all(c[0] != 'F' for c in e.chain)
           first = b if swap else a
@@ -145,12 +160,32 @@ class Design:
     return '\n'.join(out)
 
   def variant(s, rng):
-    """a random permutation of the statements of every component + random side flips / syntax"""
+    """a random permutation of the statements of every component + random side flips / syntax; slice end points are
+    written as slices of slices about a third of the time, preferably so that the inner (relative) index pair equals the
+    index pair of another, directly written slice of the same signal"""
     orders, flips = {}, {}
+    used = {}
+    for h, st in s.stmts.items():
+      for t in st:
+        if t[0] == 'conn':
+          for e in (t[1], t[2]):
+            sr = e.slice_rel() if isinstance(e, EP) else None
+            if sr: used.setdefault(sr[0], set()).add((sr[1], sr[2]))
+    def nest(e):
+      sr = e.slice_rel() if isinstance(e, EP) else None
+      if sr is None or rng.random() < 0.6: return None
+      key, a, b, W = sr
+      coll = [(c, d) for (c, d) in used[key] if d - c == b - a and c < a]
+      if coll and rng.random() < 0.8:
+        c, d = rng.choice(coll); o = a - c
+      else:
+        o = rng.randrange(0, a + 1)
+      p_ = rng.randrange(b, W + 1)
+      return (o, p_)
     for h, st in s.stmts.items():
       o = list(range(len(st))); rng.shuffle(o); orders[h] = o
       for k, t in enumerate(st):
-        if t[0] == 'conn': flips[(h, k)] = (rng.random() < 0.5, rng.choice([0, 0, 1]))
+        if t[0] == 'conn': flips[(h, k)] = (rng.random() < 0.5, rng.choice([0, 0, 1]), nest(t[1]), nest(t[2]))
     return orders, flips
 
   def edge_names(s, orders=None, flips=None):
